@@ -388,6 +388,18 @@ func connectOps() []hop {
 		cm(m).SetPassword([]byte("pw"))
 		p.HasPass, p.Pass = true, []byte("pw")
 	}})
+	// the protocol version changed on an object that may have been decoded with the other one
+	for _, v := range []byte{3, 4} {
+		v := v
+		ops = append(ops, hop{fmt.Sprintf("SetVersion(%d)", v), func(m message.Message, p *refcodec.Packet) {
+			cm(m).SetVersion(v)
+			p.Level = v
+			p.ProtoName = "MQTT"
+			if v == 3 {
+				p.ProtoName = "MQIsdp"
+			}
+		}})
+	}
 	// a flag taken back while the value stays in the object: the field is gone from the
 	// message, Len() and Encode() have to agree on that
 	ops = append(ops, hop{"SetUsernameFlag(false)", func(m message.Message, p *refcodec.Packet) { cm(m).SetUsernameFlag(false); p.HasUser = false }})
